@@ -43,6 +43,21 @@ def build(enc, K, codes):
     return arr, classes, ml
 
 
+def relayout(a, mode):
+    """the same values in a different memory layout: 0 = as built (C order), 1 = Fortran order,
+    2 = transposed view of a C array, 3 = strided view (every second column of a wider array)"""
+    if a is None or a.ndim != 2 or mode == 0:
+        return a
+    if mode == 1:
+        return np.asfortranarray(a)
+    if mode == 2:
+        return np.ascontiguousarray(a.T).T
+    wide = np.empty((a.shape[0], 2 * a.shape[1]), dtype=a.dtype)
+    wide[:, ::2] = a
+    wide[:, 1::2] = a[:, ::-1]
+    return wide[:, ::2]
+
+
 def gen_cases(ctx):
     rng = ctx.rng("c17")
     maxn = 2 if ctx.is_quick else 3
@@ -86,9 +101,13 @@ def run(ctx):
                 w[i, j] = np.nan
                 wl[i][j] = None
         seed = ci % 17
+        # memory layouts of y and w vary independently (views, Fortran order): the result must only depend on the values
+        y = relayout(y, (ci // 3) % 4)
+        w = relayout(w, (ci // 12) % 4)
+        ctx.hist[f"layout:y{(ci // 3) % 4}w{(ci // 12) % 4 if w is not None else '-'}"] += 1
         try:
-            v = cvv(y, w=None if w is None else w.copy(), classes=classes, missing_label=ml)
-            maj = mv(y, w=None if w is None else w.copy(), classes=classes, missing_label=ml, random_state=seed)
+            v = cvv(y, w=None if w is None else w.copy(order="K"), classes=classes, missing_label=ml)
+            maj = mv(y, w=None if w is None else w.copy(order="K"), classes=classes, missing_label=ml, random_state=seed)
         except Exception as e:
             ctx.violation("compute_vote_vectors", "exception", repr(e), {"codes": codes, "K": K, "enc": repr(enc), "w": wl})
             continue
